@@ -362,3 +362,20 @@ LEVEL_TEXT += _ADD10
 _ADD12 = ' R19.7: outcome contract of get_declared_hook. R19.8: nested dataclasses are packed by a call on the value (dynamic dispatch on the instance class).'
 EXPLANATION += _ADD12
 LEVEL_TEXT += _ADD12
+
+
+_run_before_r5 = run
+
+
+def run(repo, rep, tier):  # noqa: F811 -- round-5 shape rules appended to the rules above
+    _run_before_r5(repo, rep, tier)
+    if getattr(rep, "borrowed", False):
+        return
+    from ..core import round5 as _r5
+    _r5.mixin_identity_contract(repo, rep, "R19.9")
+    _r5.helper_call_flags(repo, rep, "R19.10")
+
+
+_ADDR5B = ' R19.9: is_dataclass_dict_mixin recognises the library mixin by its fully qualified name, so hooks declared on a user class that shares the bare name are still taken as declared. R19.10: every rendered call of a generated helper that is defined with the pluggable flag parameters passes get_[un]pack_method_flags() (context and the other flags reach the values below a union / literal / named tuple / typed dict helper at every depth).'
+EXPLANATION += _ADDR5B
+LEVEL_TEXT += _ADDR5B
